@@ -122,6 +122,10 @@ def routes_rnd(ctx):
     return printer_rnd(ctx, n=tier(ctx, 800, 8000), module="MCRoutes", cfg="Routes.cfg")
 
 
+def printer_panic(ctx):
+    return printer_slice(ctx, "panic")
+
+
 def printer_control_f3(ctx):
     """vacuity control: on the specification of the code BEFORE the repair of F3 (nested printers dropping the
     override) TLC must find the C06 invariant violated"""
@@ -181,6 +185,9 @@ def mode_traces(ctx):
 def registry_model(ctx):
     """MCRegistry: every order of registering every subset of four types of four kinds, each behaviour in its own process"""
     ctx.tlc_replay("MCRegistry", "Registry.cfg", ["registry-replay", "-prop", ctx.prop], workers=1)
+    # a second family of types: built-in string / int, a named []byte and a named [2]byte (fmt's byte-string paths)
+    ctx.tlc_replay("MCRegistry", "Registry.cfg", ["registry-replay", "-prop", ctx.prop], workers=1,
+                   consts=dict(Types='{"bstring", "bint", "bytes", "barray"}'))
 
 
 def c05(ctx):
@@ -202,7 +209,7 @@ def c06(ctx):
 
 def c11(ctx):
     deep_nesting(ctx)
-    printer_slice(ctx, "panic")
+    printer_panic(ctx)
     printer_slice(ctx, "dir")
     printer_rnd(ctx)
     writer_model(ctx)      # every SafeWriter call sequence incl. JoinTo with non-slice, nil and typed-nil operands: no panic
@@ -306,6 +313,11 @@ def pool_histories_from_tlc(ctx, num, depth):
     json.dump(hists, open(path, "w"))
     ctx.notes.append("%d behaviours of the Pool specification (TLC -simulate, depth %d) mapped to call histories" % (len(hists), depth))
     return path
+
+
+def pool_history_pairs(ctx):
+    """every (prior call, probe) pair of call kinds, probes compared with a fresh process"""
+    ctx.harness(["pool-history", "-depth", str(tier(ctx, 1, 2))])
 
 
 def c12(ctx):
